@@ -204,8 +204,8 @@ class Recorder:
             self.excluded[k] = self.excluded.get(k, 0) + v
         for k, v in d["sub"].items():
             s = self.sub.setdefault(k, {"evaluations": 0, "nontrivial": 0, "violations": 0})
-            for kk in s:
-                s[kk] += v.get(kk, 0)
+            for kk in set(s) | set(v):
+                s[kk] = s.get(kk, 0) + v.get(kk, 0)
         for x in d["first_samples"]:
             if len(self.first_samples) < 3:
                 self.first_samples.append(x)
